@@ -243,9 +243,24 @@ func oracle(c *Case, o *Obs) (fs []common.OracleFailure, obsNotes []string) {
 					break
 				}
 			}
-			if j < 0 || f0 < j {
+			if len(c.Users) == 0 {
+				fail("forwarded-before-auth:no-users", fmt.Sprintf("authentication is enabled and no user is configured, yet client request %d reached the origin", f0))
+			} else if j < 0 || f0 < j {
 				fail("forwarded-before-auth", fmt.Sprintf("client request %d reached the origin; first request with valid credentials: %d", f0, j))
 			}
+		}
+	}
+	if c.Auth && o.Handle == "connect" {
+		any := false
+		for _, q := range c.Reqs {
+			any = any || hasValidToken(c, q)
+		}
+		if !any {
+			key := "tunnel-before-auth"
+			if len(c.Users) == 0 {
+				key += ":no-users"
+			}
+			fail(key, "a CONNECT tunnel was granted although no request carried valid credentials")
 		}
 	}
 	ended := -1 // index of the first client request (>= f0) after which nothing may be forwarded any more
@@ -275,7 +290,7 @@ func oracle(c *Case, o *Obs) (fs []common.OracleFailure, obsNotes []string) {
 			fail("connect-forwarded", where+": a CONNECT request was forwarded to the origin")
 		}
 		if q.Host != c.Reqs[f0].Host {
-			fail("other-host-forwarded", fmt.Sprintf("%s: request for host %q sent on the connection to %q", where, q.Host, c.Reqs[f0].Host))
+			fail("other-host-forwarded"+hostDiffClass(q.Host, c.Reqs[f0].Host), fmt.Sprintf("%s: request for host %q sent on the connection to %q", where, q.Host, c.Reqs[f0].Host))
 		}
 		if q.Method == "CONNECT" || q.Host != c.Reqs[f0].Host {
 			if ended < 0 {
@@ -493,4 +508,21 @@ func lastLine(ms []*Msg) string {
 		return ""
 	}
 	return ms[len(ms)-1].Line
+}
+
+// hostDiffClass says how two different Host values differ (part of the oracle key).
+func hostDiffClass(a, b string) string {
+	strip := func(h string) string {
+		if i := strings.LastIndexByte(h, ':'); i >= 0 && !strings.HasSuffix(h, "]") {
+			return h[:i]
+		}
+		return h
+	}
+	switch {
+	case strings.EqualFold(a, b):
+		return ":case-only"
+	case strings.EqualFold(strip(a), strip(b)):
+		return ":port-only"
+	}
+	return ""
 }
